@@ -36,6 +36,7 @@ Result == [status |-> "ok", errsrc |-> 0, sizes |-> SizesOf(items, Len(P)), labe
 
 M_LabelsExact == phase = "done" => ModelLabelsExact(P, Result)
 M_TargetExact == phase = "done" => ModelTargetExact(P, Result)
+M_ValuesExact == phase = "done" => ModelValuesExact(P, Result)
 M_AgreesWithRun == phase = "done" => (LET r == Run(P, compress) IN r.status = "ok" /\ r.sizes = Result.sizes /\ r.labels = labels)
 \* labels only ever move towards smaller offsets, pass after pass
 M_LabelsMonotone == [][phase' # phase /\ phase \notin {"build"} => \A t \in DOMAIN labels : labels'[t] <= labels[t]]_mvars
